@@ -116,7 +116,37 @@ def run_case(case, arrays, classes, mon, viol, skip=()):
             continue
         mon['configs'] = mon.get('configs', 0) + 1
         mon['cfg_' + cls] = mon.get('cfg_' + cls, 0) + 1
+        crng = np.random.default_rng(case['seed2'] + 17)
+        next_uid = [10 ** 6]
         for rep in range(case['repeats']):
+            if rep and crng.random() < 0.6:
+                # the particle count changes between the construction of the
+                # neighbour search and the re-ordering (inlets, outlets,
+                # load balancing): add copies of some particles nearby, or
+                # remove some, then update
+                for pa in pas:
+                    nr = pa.num_real_particles
+                    if crng.random() < 0.6 or nr < 4:
+                        kk = int(crng.integers(1, max(2, nr // 3) + 1))
+                        idx = np.unique(crng.integers(0, nr, size=kk))
+                        extra = pa.extract_particles(idx)
+                        for c_ in 'xyz'[:dim]:
+                            extra.get(c_)[:] += crng.uniform(
+                                0.05, 0.3, size=len(idx)) * extra.get('h')
+                        extra.get('uid')[:] = np.arange(
+                            next_uid[0], next_uid[0] + len(idx))
+                        next_uid[0] += len(idx)
+                        pa.append_parray(extra)
+                        mon['particles_added'] = mon.get(
+                            'particles_added', 0) + len(idx)
+                    else:
+                        kk = int(crng.integers(1, nr // 2 + 1))
+                        idx = np.unique(crng.integers(0, nr, size=kk))
+                        pa.remove_particles(idx)
+                        mon['particles_removed'] = mon.get(
+                            'particles_removed', 0) + len(idx)
+                nn.update()
+                mon['count_changes'] = mon.get('count_changes', 0) + 1
             before = [rows(pa) for pa in pas]
             nreal = [pa.num_real_particles for pa in pas]
             for k, pa in enumerate(pas):
